@@ -13,6 +13,10 @@
 //!                  a real `Relayer` with a recording protocol context; valid blocks of the reference
 //!                  model, honest and dishonest peers, availability changes between the rounds
 //!                  (`c16_session`).
+//!   * `sync-session` : the Sync protocol end to end through `CKBProtocolHandler::received` /
+//!                  `notify` / `connected` / `disconnected` of a real `Synchronizer` with a recording
+//!                  protocol context; model-built block tree, several fake peers, well-formed and
+//!                  malformed messages, a fresh honest peer at the end (`c16_sync`).
 //!   * `fuzz-artifact` : replay of a libFuzzer crash artifact (raw bytes) through the same target
 //!                  functions; produced by the thorough tier's `cargo +nightly fuzz run` campaign
 //!                  (see `/verif/check` and `/verif/fuzz`).
@@ -26,6 +30,7 @@ use crate::c16_bytes::{self, TYPES};
 use crate::c16_gen::{self, ByteCase};
 use crate::c16_recon;
 use crate::c16_session;
+use crate::c16_sync;
 use crate::common::*;
 use serde_json::{Value, json};
 
@@ -33,13 +38,14 @@ pub fn spec() -> CheckSpec {
     CheckSpec {
         id: "C16",
         level: "exploration",
-        rule: "byte level: a case is one byte string given to target_frame or target_message; non-trivial = the bytes decode successfully for >=1 protocol type (message) / yield >=1 decoded or decompressed frame (frame); distinct = hash of the bytes. reconstruction: a case is one (block, compact block, pool content, uncle states, peer replies) scenario run through CompactBlockVerifier -> reconstruct_block -> BlockTransactionsVerifier/BlockUnclesVerifier -> reconstruct_block; non-trivial = >=1 same-hash-different-witness twin among the candidates or >=1 missing position; distinct = hash of the scenario. relay-session: a case is a model-built chain whose blocks from #3 on are relayed to a real node through Relayer::received (compact block, GetBlockTransactions/BlockTransactions rounds, several peers, honest / lying replies, tx-pool and uncle availability changing between rounds); a session = the relay of one block; non-trivial = the node had to send >=1 GetBlockTransactions; distinct = hash of (case, block index)",
+        rule: "byte level: a case is one byte string given to target_frame or target_message; non-trivial = the bytes decode successfully for >=1 protocol type (message) / yield >=1 decoded or decompressed frame (frame); distinct = hash of the bytes. reconstruction: a case is one (block, compact block, pool content, uncle states, peer replies) scenario run through CompactBlockVerifier -> reconstruct_block -> BlockTransactionsVerifier/BlockUnclesVerifier -> reconstruct_block; non-trivial = >=1 same-hash-different-witness twin among the candidates or >=1 missing position; distinct = hash of the scenario. relay-session: a case is a model-built chain whose blocks from #3 on are relayed to a real node through Relayer::received (compact block, GetBlockTransactions/BlockTransactions rounds, several peers, honest / lying replies, tx-pool and uncle availability changing between rounds); a session = the relay of one block; non-trivial = the node had to send >=1 GetBlockTransactions; distinct = hash of (case, block index). sync-session: a case is a model-built block tree (main chain, lighter side branches, one block with a valid header and a wrong DAO field, one stored never-verified sibling), a real node holding the first 1-3 main blocks and a script of Sync protocol messages from 2-3 fake peers fed to Synchronizer::received / notify / connected / disconnected (GetHeaders, SendHeaders, GetBlocks, answers to the node's own GetBlocks, SendBlock, InIBD, raw / truncated / bit-flipped bytes), followed by a fresh honest peer that must bring the node to the main tip; non-trivial = >=2 peers, >=1 message drew a ban and later valid data moved the node's chain; distinct = hash of the case",
         assumptions: &[
             "handler pre-checks are mirrored, not re-verified: SendBlock/CompactBlock with more than one extra field, messages failing check_data(), alerts failing the utf-8 checks are dropped before the deeper accessors exactly as the handlers do; JSON conversions run only on values that satisfy the check_data() rules (their documented 'checked data' precondition)",
             "BlockTransactionsVerifier/BlockUnclesVerifier receive only in-range indexes (the node computes them itself)",
             "real 80-bit short-id collisions between different transactions cannot be generated; the collision class exercised is the same-hash-different-witness twin",
             "reconstruction runs on one node per worker process: tx-pool is cleared and uncle statuses are set explicitly at the start of every case; uncles use hashes derived from the case so earlier cases cannot interfere",
             "relay-session: local availability of a transaction = what TxPoolController::fetch_txs returns at the quiescent point right before the message (pool, conflict cache and recently committed cache are the pool's business); of an uncle = the check imported it (stored) or saw it enter the orphan pool; an uncle released from the orphan pool while the verify thread is held busy by a blocking verify callback counts as neither available nor unavailable; positions already requested from a peer may be requested again (documented merge of the previous miss); in a session in which a liar announced the genuine header with a tampered body every violation is attributed to that announcement (one signature per kind of change, five known findings) and the case ends there",
+            "sync-session: all fake peers are inbound, non-whitelisted (get_peer() of the recording context returns None); the clock is frozen (faketime) right after the newest model block, so the node is out of IBD and no request times out; replies are collected after a rendezvous of all workers of the node's runtime (the handlers send from spawned tasks that never wait), repeated until a round logs nothing; a block counts as taken by the node iff it was sent while some connected peer had an open GetBlocks for it (unsolicited blocks are documented as ignored); which peers may be banned follows the handlers' own status codes (4xx: empty / oversized / genesis-less locator, non-continuous / oversized / unknown-parent / rule-breaking headers, GetBlocks with > MAX_HEADERS_LEN hashes, the genesis hash or a repeated hash, malformed bytes, extra fields, the invalid block), a too-new header timestamp and unsolicited / already stored / re-hashed (body changed, header re-derived) blocks are not punishable; GetBlocks must be answered for blocks that were ancestors of an observed tip, may be answered for delivered ancestors of the delivered invalid block (verified during the failed switch), never for anything else; the stop hash of GetHeaders may be included or not",
             "MAX_UNCOMPRESSED_LEN = 1<<23 and COMPRESSION_SIZE_THRESHOLD = 1024 are private constants of network/src/compress.rs, copied by value",
         ],
         workers: |_| 8,
@@ -144,12 +150,16 @@ fn run(ctx: &Ctx) {
         let cases = ctx.cases(64_000, 400_000);
         c16_recon::run(ctx, cases);
     }
-    if !want("relay-session") {
-        return;
+    if want("relay-session") {
+        // relay sessions through the real protocol handler: one node per case, 1-5 relayed blocks each
+        let cases = ctx.cases(800, 8000);
+        c16_session::run(ctx, cases);
     }
-    // relay sessions through the real protocol handler: one node per case, 1-5 relayed blocks each
-    let cases = ctx.cases(800, 8000);
-    c16_session::run(ctx, cases);
+    if want("sync-session") {
+        // sync protocol sessions through the real Synchronizer: one node per case
+        let cases = ctx.cases(320, 4000);
+        c16_sync::run(ctx, cases);
+    }
 }
 
 /// seed corpus for the libFuzzer targets, written under `$VERIF_WORK/../fuzz-corpus/<target>`
@@ -198,6 +208,7 @@ fn replay(ctx: &Ctx, sub: &str, v: &Value) -> Verdict {
             }
         }
         "relay-session" => c16_session::replay(v, &mut st),
+        "sync-session" => c16_sync::replay(v, &mut st),
         _ => c16_recon::replay(v, &mut st),
     }
 }
